@@ -19,6 +19,8 @@ def _trees():
     return {
         "flat": dict(x={"a": f(), "b": f(2)}),
         "nested-with-None": dict(x={"p": {"q": f(), "r": None}, "s": (f(2), None)}),
+        # leaves of different, mutually non-broadcastable shapes (e.g. a 2-vector state and a 3-vector offset), a matrix, a None leaf
+        "mixed-shapes": dict(x={"init_state": f(2), "offset_xyz": f(3), "gain": f(2, 2), "skip": None}),
     }
 
 
@@ -49,7 +51,21 @@ def worker(cfg, tier):
             pos1 = jax.tree_util.tree_map(lambda v: jnp.ones_like(v), x)
             return dict(inv_apply=t.inv(t.apply(x)), apply_inv=t.apply(t.inv(x)), at_m1=t.apply(neg1), at_p1=t.apply(pos1), ax=t.apply(x), ax2=t.apply(x2))
 
-        tr = jx.Traced(fn, x0, x0, x0, x0)
+        try:
+            tr = jx.Traced(fn, x0, x0, x0, x0)
+        except Exception as ex:  # the real Denormalize.init raises on this tree (bounds with min < max everywhere)
+            ok = None
+            try:
+                lo = jax.tree_util.tree_map(lambda v: -jnp.ones_like(v), x0)
+                hi = jax.tree_util.tree_map(lambda v: jnp.ones_like(v), x0)
+                Denormalize.init(lo, hi)
+                ok = False
+            except Exception:
+                ok = True
+            obs.append(Ob(f"denormalize: init accepts every tree of bounds with min < max [{cfg['tree']}]", "sat", 0, cfg, key="denorm-init", replayed=ok, trivial=True,
+                          detail=f"{type(ex).__name__}: {str(ex)[:200]}", what=f"Denormalize.init raises on bounds whose leaves have different shapes / no array leaves ({type(ex).__name__})"))
+            return obs
+        obs.append(Ob(f"denormalize: init accepts every tree of bounds with min < max [{cfg['tree']}]", "unsat", 0, cfg, key="denorm-init", trivial=True, replayed=True))
         flat = tr.sym_inputs(it, "d")
         mn, mx, x, x2 = tr.in_pytree(flat)
         pre = [a < b for a, b in zip(leaves(mn), leaves(mx))]
@@ -223,7 +239,7 @@ def _replay_chain(order):
 
 
 def configs(tier):
-    out = [dict(which="denormalize", tree=t) for t in ("flat", "nested-with-None")]
+    out = [dict(which="denormalize", tree=t) for t in ("flat", "nested-with-None", "mixed-shapes")]
     out += [dict(which="exp_identity", tree=t) for t in ("flat", "nested-with-None")]
     out += [dict(which="chain_concrete"), dict(which="chain_opaque"), dict(which="shared"), dict(which="extend")]
     return out
